@@ -211,6 +211,28 @@ def check_pair(sname, lname, damp, nb, res):
                         j = int(np.argmax(np.abs(r.F - Fi).max(axis=0)))
                         msgs.append((case, "interface force differs from the directly coupled system (force case %d): rel err / tol %.3g > %.3g at %.6g Hz: ntfl %s, direct %s" % (k, eF, tol, freq[j], r.F[:, j].tolist(), Fi[:, j].tolist()), "F"))
                         break
+            # exactly 0 Hz (single interface DOF): everything is rigid - apparent mass = physical mass,
+            # A = sum(F)/(ms + ml), F = ml * A
+            if nb == 1:
+                ms_, ml_ = np.trace(src[0]), np.trace(load[0])
+                f0 = np.array([0.0, 0.5 * fn[0]])
+                for fs_, fl_ in itertools.product(FORMS, FORMS):
+                    if (not isinstance(fs_, str) and fs_[1]) or (not isinstance(fl_, str) and fl_[1]):
+                        continue
+                    case = dict(part="pair", src=sname, load=lname, damp=damp, bs=bs, bl=bl, fs=fs_ if isinstance(fs_, str) else list(fs_), fl=fl_ if isinstance(fl_, str) else list(fl_), zero_hz=True)
+                    As0 = np.array([[1.0 / ms_, 1.0 / ms_]])
+                    try:
+                        with warnings.catch_warnings():
+                            warnings.simplefilter("ignore")
+                            r0 = frclim.ntfl(form_inputs(src, bs, fs_), form_inputs(load, bl, fl_), As0, f0)
+                    except Exception as e:  # noqa
+                        msgs.append((case, "ntfl at 0 Hz raised %r" % (e,), "zero-raise"))
+                        continue
+                    res.ev("ntfl0/%s+%s/%s" % (fname(fs_), fname(fl_), damp))
+                    got0 = [r0.SAM[0, 0, 0], r0.LAM[0, 0, 0], r0.A[0, 0], r0.F[0, 0]]
+                    want0 = [ms_, ml_, 1.0 / (ms_ + ml_), ml_ / (ms_ + ml_)]
+                    if not np.allclose(got0, want0, rtol=1e-9, atol=0):
+                        msgs.append((case, "at exactly 0 Hz [SAM, LAM, A, F] = %s; rigid-body values are %s" % ([complex(x) for x in got0], want0), "zero-hz"))
             # solver routes for the recovery-matrix form
             S = form_inputs(src, bs, "drm")
             with warnings.catch_warnings():
@@ -289,7 +311,7 @@ def _run(sh, res):
     nb = sh.get("nb", len(sh.get("bs", [0])))
     m = check_pair(sh["src"], sh["load"], sh["damp"], nb, res)
     if "bs" in sh:
-        keys = [k for k in ("bs", "bl", "fs", "fl", "routes") if k in sh]
+        keys = [k for k in ("bs", "bl", "fs", "fl", "routes", "zero_hz") if k in sh]
         m = [x for x in m if all(x[0].get(k) == sh[k] for k in keys)]
     return m
 
